@@ -5,28 +5,28 @@ UNITS = [
     U("C14.codec", ["C14", "C07"], "harness/C14/codec.c", "h_codec", replace=XQ, assumed=XQ,
       functions=["secp256k1_ecdsa_adaptor_sig_deserialize", "secp256k1_ecdsa_adaptor_sig_serialize", "secp256k1_eckey_pubkey_parse", "secp256k1_ge_set_xo_var",
                  "secp256k1_scalar_set_b32", "secp256k1_scalar_set_b32_seckey", "secp256k1_eckey_pubkey_serialize33"],
-      timeout=600, min_obl=300, unwind=40, replay=False, note="all 162-byte strings x all output-pointer patterns"),
+      timeout=600, min_obl=2289, unwind=40, replay=False, note="all 162-byte strings x all output-pointer patterns"),
     U("C14.dleq_verify", ["C14"], "harness/C14/dleq_verify.c", "h_dleq_verify", replace=HASH + ["secp256k1_ecmult", "secp256k1_gej_add_var", "secp256k1_ge_set_all_gej_var"],
       assumed=["secp256k1_ecmult", "secp256k1_gej_add_var", "secp256k1_ge_set_all_gej_var"],
       functions=["secp256k1_dleq_verify", "secp256k1_dleq_challenge", "secp256k1_dleq_hash_point", "secp256k1_nonce_function_dleq_sha256_tagged", "secp256k1_scalar_negate", "secp256k1_scalar_add"],
-      timeout=600, min_obl=300, unwind=40, replay=False, note="wiring of the three multiplications, infinity gate, challenge hash stream, scalar comparison"),
+      timeout=600, min_obl=3327, unwind=40, replay=False, note="wiring of the three multiplications, infinity gate, challenge hash stream, scalar comparison"),
     U("C14.verify", ["C14", "C07"], "harness/C14/verify.c", "h_verify",
       # gej_eq_x_var / gej_add_var / ge_set_gej are not called by the unchanged code; they are listed so that an edit which routes the final
       # comparison through another group primitive stays decidable (oracle) and then fails "accepts only through the adaptor equation"
       replace=XQ + ["secp256k1_dleq_verify", "secp256k1_scalar_inverse_var", "secp256k1_scalar_mul", "secp256k1_ecmult", "secp256k1_gej_add_ge_var", "secp256k1_gej_eq_x_var", "secp256k1_gej_add_var", "secp256k1_ge_set_gej"],
       assumed=XQ + ["secp256k1_scalar_inverse_var", "secp256k1_scalar_mul", "secp256k1_ecmult", "secp256k1_gej_add_ge_var"],
       functions=["secp256k1_ecdsa_adaptor_verify", "secp256k1_ecdsa_adaptor_sig_deserialize", "secp256k1_pubkey_load", "secp256k1_gej_neg", "secp256k1_scalar_set_b32"],
-      timeout=600, min_obl=300, unwind=40, replay=False, note="all 162-byte strings, messages, key objects; dleq_verify replaced by its verdict summary (gate proved in C14.dleq_verify)"),
+      timeout=600, min_obl=3615, unwind=40, replay=False, note="all 162-byte strings, messages, key objects; dleq_verify replaced by its verdict summary (gate proved in C14.dleq_verify)"),
     U("C14.decrypt", ["C14", "C07"], "harness/C14/decrec.c", "h_decrypt", replace=["secp256k1_scalar_inverse", "secp256k1_scalar_mul"], assumed=["secp256k1_scalar_inverse", "secp256k1_scalar_mul"],
       functions=["secp256k1_ecdsa_adaptor_decrypt", "secp256k1_ecdsa_adaptor_sig_deserialize", "secp256k1_scalar_is_high", "secp256k1_scalar_cond_negate", "secp256k1_ecdsa_signature_save", "secp256k1_memczero"],
-      timeout=600, min_obl=200, unwind=66, replay=False, note="all deckey / 162-byte strings; low-S for every input with real is_high/cond_negate around the inverse and product oracles"),
+      timeout=600, min_obl=2046, unwind=66, replay=False, note="all deckey / 162-byte strings; low-S for every input with real is_high/cond_negate around the inverse and product oracles"),
     U("C14.recover", ["C14", "C07"], "harness/C14/decrec.c", "h_recover",
       replace=["secp256k1_scalar_inverse", "secp256k1_scalar_mul", "secp256k1_ecmult_gen", "secp256k1_ge_set_gej"], assumed=["secp256k1_scalar_inverse", "secp256k1_scalar_mul", "secp256k1_ecmult_gen", "secp256k1_ge_set_gej"],
       functions=["secp256k1_ecdsa_adaptor_recover", "secp256k1_ecdsa_adaptor_sig_deserialize", "secp256k1_ecdsa_signature_load", "secp256k1_scalar_eq", "secp256k1_eckey_pubkey_serialize33", "secp256k1_pubkey_load"],
-      timeout=600, min_obl=200, unwind=66, replay=False, note="all signature objects with scalars < n, 162-byte strings, key objects"),
+      timeout=600, min_obl=3100, unwind=66, replay=False, note="all signature objects with scalars < n, 162-byte strings, key objects"),
     U("C14.encrypt", ["C14"], "harness/C14/encrypt.c", "h_encrypt",
       replace=HASH + ["secp256k1_dleq_prove", "secp256k1_ecmult_const", "secp256k1_ecmult_gen", "secp256k1_ge_set_all_gej", "secp256k1_scalar_inverse", "secp256k1_scalar_mul"],
       assumed=["secp256k1_dleq_prove", "secp256k1_ecmult_const", "secp256k1_ecmult_gen", "secp256k1_ge_set_all_gej", "secp256k1_scalar_inverse", "secp256k1_scalar_mul"],
       functions=["secp256k1_ecdsa_adaptor_encrypt", "secp256k1_ecdsa_adaptor_sig_serialize", "nonce_function_ecdsa_adaptor_impl", "secp256k1_scalar_set_b32_seckey", "secp256k1_scalar_cmov", "secp256k1_memczero"],
-      timeout=900, min_obl=300, unwind=164, replay=False, note="failure zeroing and s' wiring; default or stubbed nonce function; dleq_prove is an oracle here"),
+      timeout=900, min_obl=3822, unwind=164, replay=False, note="failure zeroing and s' wiring; default or stubbed nonce function; dleq_prove is an oracle here"),
 ]
